@@ -185,6 +185,41 @@ def _l5_cap(n: int, u0: int, u1: int, u2: int, u3: int, cap: int, pooling: int) 
     return got == sorted(exp)
 
 
+def _l4b_tags_rejected(n: int, mq: int, thr: int, d0: bool, d1: bool, d2: bool) -> bool:
+    """
+    pre: 1 <= n <= 3
+    pre: 0 <= mq <= 2 and 0 <= thr <= 2
+    post: _
+    """
+    # plain Molecule of n identical fragments whose best MAPQ may be below min_max_mapping_quality (molecule-level rejection):
+    # duplicate bits / RC / af / TF are written all the same
+    MQ = pick([0, 10, 60], mq)
+    TH = pick([None, 20, 50], thr)
+    frags = []
+    for i in range(n):
+        f = S.plain_frag(FakeRead, 100, 10, False, 'lib_1', 'AAA', 0, 0)
+        f.reads[0].mapping_quality = MQ
+        f.mapping_quality = MQ
+        f.reads[0].query_name = 'f%d' % i
+        f.reads[0].is_duplicate = [d0, d1, d2][i]
+        frags.append(f)
+    m = Molecule(min_max_mapping_quality=TH)
+    for f in frags:
+        m._add_fragment(f)
+    for _round in (0, 1):
+        m.write_tags()
+        nondup = 0
+        for rank, f in enumerate(m):
+            r = f.reads[0]
+            if not r.is_duplicate:
+                nondup += 1
+            if not r.has_tag('RC') or r.get_tag('RC') != rank or r.get_tag('af') != n or r.get_tag('TF') != n:
+                return False
+        if nondup != 1:
+            return False
+    return True
+
+
 _T = {'quick': 240, 'thorough': 1200}
 LEMMAS = [
     dict(name='L1_nla_pairwise', fn='_l1_nla_pair', engine='E1', timeout=_T, replay='replay.C06:replay',
@@ -199,6 +234,7 @@ LEMMAS = [
                           for n in (1, 2) for d in (0, 1) for p in (0, 1)] +
                          [dict(id='n3_d%d_p%d_s%d' % (d, p, s), pre=['n == 3', 'd == %d' % d, 'pooling == %d' % p, 's0 == %d' % s, 'r0 == False', 'r1 == False', 'r2 == False', 'c0 == 0', 'c1 == 0', 'c2 <= 1']) for d in (0, 1) for p in (0, 1) for s in (0, 1)],
                 'thorough': [dict(id='n3_d%d_p%d_s%d_c%d_r%d' % (d, p, s, c, r), pre=['n == 3', 'd == %d' % d, 'pooling == %d' % p, 's0 == %d' % s, 'c0 == %d' % c, 'r0 == %s' % bool(r)]) for d in (0, 1) for p in (0, 1) for s in (0, 1) for c in (0, 1) for r in (0, 1)]}),
+    dict(name='L4b_tags_of_rejected_molecule', fn='_l4b_tags_rejected', engine='E1', timeout=_T, replay='replay.C06:replay'),
     dict(name='L5_fragment_cap', fn='_l5_cap', engine='E1', timeout=_T, replay='replay.C06:replay',
          cases={'quick': [dict(id='cap%d_p%d' % (c, p), pre=['cap == %d' % c, 'pooling == %d' % p]) for c in (1, 2) for p in (0, 1)]}),
     dict(name='L4_duplicate_rank_tags', fn='_l4_tags', engine='E1', timeout=_T, replay='replay.C06:replay'),
